@@ -325,6 +325,11 @@ func C19(c *core.Ctx) error {
 		v2path := filepath.Join(dir, "v2.yml")
 		v3path := filepath.Join(dir, "v3.yml")
 		os.WriteFile(v2path, v2b, 0o644)
+		// histories: every other case starts with an output file left by an earlier, larger migration
+		// (the new output must replace it completely); the rest start without one
+		if i%2 == 1 {
+			os.WriteFile(v3path, []byte("template: testify\npackages:\n"+strings.Repeat("    stale/pkg/from/an/earlier/run:\n        config:\n            all: true\n            dir: stale\n", 40)), 0o644)
+		}
 		before := core.HashBytes(v2b)
 		r := core.Run(mod, core.UserEnv(), 60*time.Second, "", c.Mockery, "migrate", "--config", v2path, "--outfile", v3path)
 		c.Ev.Add("transitions", 1)
